@@ -132,6 +132,7 @@ class Inliner:
         self.stack: list[str] = []
         self.stats = {"expression": 0, "statement": 0, "callers": 0}
         self.sites: dict[str, int] = {}
+        self.introduced: dict[str, set[str]] = {}
 
     # ------------------------------------------------------------------ resolution
     def _helper_for(self, fi: "FuncInfo", call: ast.Call) -> "FuncInfo | None":
@@ -345,7 +346,7 @@ class Inliner:
         k = self.counter
         body = copy.deepcopy(_body_without_doc(h.node))
         holder = ast.Module(body=body, type_ignores=[])
-        caller_names = _all_names(fi.node)
+        caller_names = _all_names(fi.node) | self.introduced.get(fi.qual, set())  # incl. names brought in by earlier splices into this function
         helper_bound = _bound_names(h.node)
         params = [*h.node.args.posonlyargs, *h.node.args.args, *h.node.args.kwonlyargs]
         ann = {p.arg: p.annotation for p in params}
@@ -370,6 +371,7 @@ class Inliner:
                 rename[name] = f"{name}__i{k}"
         if rename:
             holder = _Subst(rename).visit(holder)
+        self.introduced.setdefault(fi.qual, set()).update({(rename.get(nm, nm) if isinstance(rename.get(nm, nm), str) else nm) for nm in (helper_bound | set(bind))})
         ret_name = f"__ret_{k}"
         as_condition = kind == "test"
 
@@ -665,7 +667,7 @@ def unroll_display_loops(fn: ast.AST, module_displays: dict[str, ast.expr] | Non
     return count
 
 
-def propagate_attr_aliases(fn: ast.AST) -> int:
+def propagate_attr_aliases(fn: ast.AST, names_only: bool = False) -> int:
     """``ctx = self.ns_context`` ... ``ctx.pop()``: a local that merely names an attribute chain (``self.a``, ``self.a.b``, ``param.a``) is
     replaced by the chain itself, so that code written with and without such a temporary is one and the same to every rule.  Only when the
     local is assigned exactly once and only read, the root of the chain is never rebound, and no use of the local can run after the
@@ -682,16 +684,28 @@ def propagate_attr_aliases(fn: ast.AST) -> int:
         while isinstance(e, ast.Attribute):
             parts.append(e.attr)
             e = e.value
-        if isinstance(e, ast.Name) and parts and stores_n.get(e.id, 0) == 0:
+        # the root is never rebound - or bound exactly once (a loop target, a single assignment): then alias and chain are read in the
+        # same iteration / after the same binding
+        if isinstance(e, ast.Name) and parts and stores_n.get(e.id, 0) <= 1:
             return e.id + "." + ".".join(reversed(parts))
         return None
 
-    cands: dict[str, ast.Assign] = {}
+    cands: dict[str, ast.stmt] = {}
+    name_alias: set[str] = set()
     params = {a.arg for a in [*fn.args.posonlyargs, *fn.args.args, *fn.args.kwonlyargs]} | ({fn.args.vararg.arg} if fn.args.vararg else set()) | ({fn.args.kwarg.arg} if fn.args.kwarg else set())
     for n in _walk_own(fn):
-        if isinstance(n, ast.Assign) and len(n.targets) == 1 and isinstance(n.targets[0], ast.Name) and n.targets[0].id not in params and chain(n.value) is not None and stores_n.get(n.targets[0].id, 0) == 1 \
-                and not hasattr(n, "_xsa_jump") and not hasattr(n, "_xsa_unrolled"):
-            cands[n.targets[0].id] = n
+        tgt = n.targets[0] if isinstance(n, ast.Assign) and len(n.targets) == 1 else (n.target if isinstance(n, ast.AnnAssign) and n.value is not None else None)
+        if not isinstance(tgt, ast.Name) or tgt.id in params or stores_n.get(tgt.id, 0) != 1 or hasattr(n, "_xsa_jump") or hasattr(n, "_xsa_unrolled"):
+            continue
+        if chain(n.value) is not None:
+            if not names_only:
+                cands[tgt.id] = n
+        elif isinstance(n.value, ast.Name) and n.value.id != tgt.id and not (
+                isinstance(n, ast.AnnAssign) and ast.unparse(n.annotation).replace(" ", "") in ("int", "float", "bool", "int|None", "float|None")):
+            # a plain copy of another local / parameter (`element = pending`, the bound parameter of an inlined helper): same treatment,
+            # provided no use of the copy can run after the original was rebound (checked on the CFG below)
+            cands[tgt.id] = n
+            name_alias.add(tgt.id)
     if not cands:
         return 0
     # attribute chains (by text) that are rebound / deleted somewhere in the function
@@ -706,6 +720,8 @@ def propagate_attr_aliases(fn: ast.AST) -> int:
         text = ast.unparse(st.value)
         prefixes = {text[:i] for i in range(len(text) + 1) if i == len(text) or text[i] == "."}
         hits = [n for t in prefixes for n in rebound.get(t, [])]
+        if name in name_alias:
+            hits = [n for n in _walk_own(fn) if isinstance(n, ast.Name) and n.id == st.value.id and isinstance(n.ctx, (ast.Store, ast.Del))]
         uses = [n for n in _walk_own(fn) if isinstance(n, ast.Name) and n.id == name and isinstance(n.ctx, ast.Load)]
         if any(isinstance(p, (ast.Lambda, ast.GeneratorExp, ast.ListComp, ast.SetComp, ast.DictComp)) and any(u is x for x in ast.walk(p) for u in uses) for p in _walk_own(fn)):
             pass  # uses inside comprehensions / lambdas evaluate where they are written: still fine for an alias of a stable chain
@@ -718,9 +734,13 @@ def propagate_attr_aliases(fn: ast.AST) -> int:
             if any(h is None for h in hit_nodes) or any(u is None for u in use_nodes):
                 continue
             after = set()
+            def_node = node_containing(g, st)
             for h in hit_nodes:
-                after |= g.reachable([m for m, _ in g.succ[h.id]])
+                # (a path that re-executes the alias assignment re-creates the alias: it does not count)
+                after |= g.reachable([m for m, _ in g.succ[h.id]], blocked=[def_node.id] if def_node is not None and name in name_alias else [])
             if any(u.id in after for u in use_nodes):
+                continue
+            if name in name_alias and def_node is not None and not all(g.must_pass(g.entry, u.id, [def_node.id]) for u in use_nodes):
                 continue
         # substitute
 
@@ -944,6 +964,15 @@ class _SplitTupleAssign(ast.NodeTransformer):
             if not (names & used) and not any(isinstance(x, (ast.NamedExpr, ast.Yield, ast.Await)) for x in ast.walk(node.value)):
                 self.count += 1
                 return [ast.copy_location(ast.Assign(targets=[t], value=v), node) for t, v in zip(node.targets[0].elts, node.value.elts)]
+        if len(node.targets) == 1 and isinstance(node.targets[0], ast.Tuple) and isinstance(node.value, ast.Tuple) and len(node.targets[0].elts) == len(node.value.elts) \
+                and all(isinstance(t, (ast.Name, ast.Attribute, ast.Subscript)) for t in node.targets[0].elts) and not any(isinstance(v, ast.Starred) for v in node.value.elts) \
+                and not any(isinstance(x, (ast.NamedExpr, ast.Yield, ast.Await)) for x in ast.walk(node.value)):
+            # the general case (attribute / item targets, swaps): the right-hand sides are evaluated first, into temporaries
+            self.count += 1
+            k = self.count
+            pre = [ast.copy_location(ast.Assign(targets=[ast.copy_location(ast.Name(id=f"__tup_{k}_{i}", ctx=ast.Store()), node)], value=v), node) for i, v in enumerate(node.value.elts)]
+            post = [ast.copy_location(ast.Assign(targets=[t], value=ast.copy_location(ast.Name(id=f"__tup_{k}_{i}", ctx=ast.Load()), node)), node) for i, t in enumerate(node.targets[0].elts)]
+            return pre + post
         return node
 
     def visit_Lambda(self, node):
@@ -1053,6 +1082,13 @@ def inline_private_helpers(repo: "Repo") -> dict:
     inl.run()
     inl.stats["conditional_expressions_split"] = n
     inl.stats["absorbed"] = _drop_absorbed(repo, inl.sites)
+    # the parameter bindings of spliced helpers (`element = pending`) are plain copies: propagate them like hand-written aliases
+    post = 0
+    for q in inl.introduced:
+        fi = repo.functions.get(q)
+        if fi is not None:
+            post += propagate_attr_aliases(fi.node, names_only=True)
+    inl.stats["aliases_after_inlining"] = post
     return inl.stats
 
 
